@@ -563,7 +563,7 @@ def gen_configs(tier, seed):
     # 3-byte delimiters: two symbols, chunk sizes 3 and 4, reduced operation alphabet (mode 'd3')
     # (the shortest witness of a consumed look-alike prefix straddling the edge of a 3-byte sync chunk,
     #  with the source not yet at EOF, needs 7 bytes)
-    for n in range(3, 8):
+    for n in range(3, 8 if tier == 'quick' else 9):
         for tup in itertools.product([b'a', b'b'], repeat=n):
             data = b''.join(tup)
             for cuts in compositions(n):
@@ -576,9 +576,14 @@ def gen_configs(tier, seed):
                 for chunk in (3, 4):
                     if n >= 6 and chunk == 4 and tier == 'quick':
                         continue
-                    cfgs.append(('sync', data, cuts, chunk, n, 'd3'))
+                    if n <= 7:
+                        cfgs.append(('sync', data, cuts, chunk, n, 'd3'))
                     if n <= (5 if tier == 'quick' else 6):
                         cfgs.append(('async', data, tuple(chunks_of(data, cuts)), chunk, n, 'd3'))
+            # async source items of sizes (>= chunk size, 1, >= chunk size): a tiny item between two big ones
+            if n >= 7:
+                for cuts in ((3, 4),) + (((4, 5),) if n >= 8 else ()):
+                    cfgs.append(('async', data, tuple(chunks_of(data, cuts)), 3, n, 'd3'))
     return cfgs, alld
 
 
